@@ -68,6 +68,23 @@ Theorem C12_spill_rule :
     else inr (EGroup None g', prev, a', evs).
 Proof. exact spill_rule. Qed.
 
+(* Every first-level INLINE group fits the inline-element limit, in every reachable state (a group
+   that grows beyond it is spilled by the Set that made it grow; removals below the first level never
+   grow an element).  The converse does not hold in the Go code (an external group that shrank is not
+   brought back inline - the TODO in externalCollisionGroup.Remove) and is not claimed. *)
+Theorem C12_inline_groups_bounded :
+  forall dg levels max_inline_elem limit next ops, (1 <= levels)%nat ->
+    inl_ok max_inline_elem (m_root (fst (m_run dg levels max_inline_elem limit (m_init next) ops))).
+Proof.
+  intros dg levels mi lim next ops Hlv.
+  apply m_run_inl_ok; [assumption|apply ewf_init; assumption|constructor].
+Qed.
+
+Theorem C12_inline_groups_bounded_step :
+  forall dg levels max_inline_elem limit s o, mwf dg levels s -> inl_ok max_inline_elem (m_root s) ->
+    inl_ok max_inline_elem (m_root (fst (fst (m_step dg levels max_inline_elem limit s o)))).
+Proof. exact m_step_inl_ok. Qed.
+
 (* non-vacuity and a concrete refusal: limit 1; the digest 0 of the first level is shared by keys with
    second-level digests {1, 3} -> fanout 2 >= limit + 1 -> key 41 (absent) is refused, while
    overwriting key 12 (present, same first-level digest) is accepted *)
@@ -90,3 +107,5 @@ Print Assumptions C12_updates_accepted.
 Print Assumptions C12_structure_preserved.
 Print Assumptions C12_group_shapes.
 Print Assumptions C12_spill_rule.
+Print Assumptions C12_inline_groups_bounded.
+Print Assumptions C12_inline_groups_bounded_step.
